@@ -376,6 +376,14 @@ def match_table(cs, wanted, deep_ref=None):
     used = set()
     res = {}
     for cond, n in wanted:
+        idx = [i for i, t in enumerate(texts) if t == cond and i not in used]
+        if len(idx) >= n:
+            res[cond] = [cs[i] for i in idx]
+            used.update(idx)
+    # the flipped spelling, only for entries the exact spelling did not satisfy and only among checks nothing else claimed
+    for cond, n in wanted:
+        if cond in res:
+            continue
         idx = [i for i, t in enumerate(texts) if (t == cond or flips[i] == cond) and i not in used]
         if len(idx) >= n:
             res[cond] = [cs[i] for i in idx]
